@@ -22,7 +22,7 @@ TIMES = [(0, 0, 0, 0), (0, 0, 0, 1), (12, 0, 0, 0), (12, 30, 59, 999999), (23, 5
          # microsecond values that 1e6 * float('0.xxxxxx') truncates one too low
          (10, 36, 0, 249), (7, 8, 9, 251), (22, 1, 59, 493)]
 DEFAULT = D.datetime(1987, 7, 17)
-TZENVS = [None, 'Europe/London', 'America/New_York', 'UTC0']
+TZENVS = [None, 'Europe/London', 'America/New_York', 'UTC0', 'UTC0BST,M3.5.0/1,M10.5.0/2', 'GMT0BST,M3.5.0/1,M10.5.0/2']
 
 
 def datetimes(year):
@@ -172,6 +172,12 @@ def run(ctx):
     envs = TZENVS if ctx.thorough else [None] + ctx.rotate(TZENVS[1:], 1)
     cases = [(name, y, env) for name in R.T for y in years for env in envs]
     ctx.explore('templates', cases, 'eval_template', chunk=6)
+    if not ctx.thorough:
+        # local zones that *name* their standard time UTC / GMT and have a summer time: a rendered 'Z', ' UTC', ' GMT'
+        # or zero offset is UTC all year (quick: a few templates, two years; thorough has them in the full product)
+        few = ['iso_T_s', 'iso_sp_m', 'ctime', 'rfc2822', 'compactT6', 'us_slash_time', 'iso_hms', 'time_then_iso']
+        ctx.explore('utc-designators-under-local-utc-names',
+                    [(n, y, e) for n in few for y in (2003, 2024) for e in TZENVS[4:] if e not in envs], 'eval_template', chunk=2)
     two = [(name, clock) for name in R.T2 for clock in (1999, 2000, 2049, 2050, 2099, None)]
     ctx.explore('two-digit-years', two, 'eval_two_digit', chunk=2)
     ctx.coverage_extra.update({
